@@ -48,6 +48,14 @@ def _resolve_pid(sim, op):
         from harness.simkernel import PID_BASE
         pid = op["pid"] + PID_BASE
         return pid if pid in sim.kernel.procs else None
+    if "untracked" in op:
+        # a running child of the daemon that no watcher tracks any more (released by rm nostop, forgotten after a
+        # failing after_spawn hook ...): it is still the daemon's child and its zombie is the daemon's to reap
+        tracked = set()
+        for w in sim._all_watchers:
+            tracked.update(w.processes.keys())
+        cands = sorted(pid for pid, sp in sim.kernel.procs.items() if sp.st == "run" and sp.parent == 0 and pid not in tracked)
+        return cands[op["untracked"] % len(cands)] if cands else None
     return None
 
 
@@ -259,6 +267,8 @@ def gen_scenario(seed, profile=None):
             if rng.random() < p["partial"]:
                 s[-1]["drain"] = False
                 s.append({"op": "run", "n": rng.randint(1, 4)})
+        elif r < 0.55 and p["deaths"] and rng.random() < p.get("die_untracked", 0.0):
+            s.append({"op": "die", "untracked": rng.randint(0, 3), "status": rng.choice(EXIT_STATUSES)})
         elif r < 0.55 and p["deaths"]:
             d = {"op": "die", "sel": [w, rng.randint(0, 3)], "status": rng.choice(EXIT_STATUSES)}
             if rng.random() < p["kcall_deaths"]:
